@@ -190,7 +190,7 @@ var primFacet = harness.Register(&harness.Facet[primCase]{
 	Name:     "primitive-this",
 	Rule:     "rapid: Array.prototype.<method>.call(primitive, …) with the receiver a primitive string of 0–5 characters (own index properties and length of the String wrapper are read-only), a number or a boolean (with length and index properties planted on Number.prototype/Boolean.prototype/String.prototype on a fresh runtime so that the walk is not empty), every 15.4.4 method except sort, arguments and callbacks as in the methods facet; the callback log records typeof, identity across visits and rendering of the object argument, which must be the wrapper ToObject(this) — one object per call — never the primitive; return value, thrown class, log compared with lib/m08; every case non-trivial; distinct by the whole case",
 	Quick:    3000,
-	Thorough: 15000,
+	Thorough: 10000,
 	Gen:      genPrim,
 	Check:    checkPrim,
 })
